@@ -24,8 +24,14 @@
 (* The specification is run DETERMINISTICALLY with that oracle by the       *)
 (* ORIGINAL HGMSplit actions, which are conjoined here (every HGMSplit      *)
 (* invariant is evaluated on every state), and its final K / labelling /    *)
-(* accepted splits are compared with the outcome.  Verdicts are total; one  *)
-(* line <<"VERDICT", tid, v>> is printed per trace:                         *)
+(* accepted splits are compared with the outcome.  The property fixes the   *)
+(* PARTITION of the training points, not the numbering of the clusters: the *)
+(* labelling is compared up to the relabelling Pi (spec label -> code       *)
+(* label), which must be a bijection on 0..K-1; the printed parent          *)
+(* positions of the accepted splits depend on the numbering and are only    *)
+(* compared when Pi is the identity (otherwise the iterations only).        *)
+(* Verdicts are total; one line <<"VERDICT", tid, v, lowerWins, relabelled>>*)
+(* is printed per trace (the two flags are evidence about the run):         *)
 (*   "accepted"                                                             *)
 (*   "n-clusters" | "labels" | "accepted-splits" | "predict-range"          *)
 (*        the first clause in which outcome and specification differ        *)
@@ -66,7 +72,23 @@ Internal ==
 Entries(C) == {i \in 1..Len(T.orc) : T.orc[i].ids = C}
 Entry(C) == T.orc[CHOOSE i \in Entries(C) : TRUE]
 
-Judge(v) == verdict' = v /\ PrintT(<<"VERDICT", tid, v>>)
+\* evidence: in some pass two clusters qualify, the LOWER-positioned one is split and the other one in a later pass
+LowerWins ==
+    \E s \in 1..Len(splits), e \in 1..Len(log) :
+        /\ log[e].it = splits[s].it /\ log[e].pos > splits[s].parent
+        /\ Gt(log[e].imp, log[e].thr)
+        /\ \E s2 \in (s + 1)..Len(splits) : splits[s2].ids = log[e].ids
+
+\* the relabelling spec label -> code label read off one point of every spec cluster (clusters are never empty)
+LabelsOK == Len(T.labels) = n /\ \A p \in 1..n : T.labels[p] \in 0..(K - 1)
+Pi == [j \in 0..(K - 1) |-> T.labels[CHOOSE p \in clusters[j + 1] : TRUE]]
+SamePartition ==
+    /\ LabelsOK
+    /\ \A p \in 1..n : T.labels[p] = Pi[labels[p]]            \* no spec cluster is split over two code labels
+    /\ \A i, j \in 0..(K - 1) : i # j => Pi[i] # Pi[j]          \* no two spec clusters are merged under one code label
+Relabelled == pc = "done" /\ T.K = K /\ SamePartition /\ \E j \in 0..(K - 1) : Pi[j] # j
+
+Judge(v) == verdict' = v /\ PrintT(<<"VERDICT", tid, v, pc = "done" /\ LowerWins, Relabelled>>)
 
 \* the outcome on its own: K within the cap, every point one label in [0, K), predictions in [0, K)
 OutputSane ==
@@ -101,11 +123,13 @@ TraceUnbound ==
 
 \* specification finished: compare with the outcome
 SpecSplits == [s \in 1..Len(splits) |-> <<splits[s].it, splits[s].parent>>]
+SpecSplitIters == [s \in 1..Len(splits) |-> splits[s].it]
+CodeSplitIters == [s \in 1..Len(T.splits) |-> T.splits[s][1]]
 
 Clause ==
     IF T.K # K THEN "n-clusters"
-    ELSE IF T.labels # labels THEN "labels"
-    ELSE IF T.hasSplits /\ T.splits # SpecSplits THEN "accepted-splits"
+    ELSE IF ~SamePartition THEN "labels"
+    ELSE IF T.hasSplits /\ (IF Relabelled THEN CodeSplitIters # SpecSplitIters ELSE T.splits # SpecSplits) THEN "accepted-splits"
     ELSE IF ~(T.preds \subseteq 0..(K - 1)) THEN "predict-range"
     ELSE "accepted"
 
